@@ -250,8 +250,14 @@ def main():
                  "working tree. Known findings (all fixed) are in /verif/known_findings.json. Seeded changes used to test the checks are "
                  "in /verif/seeded. scope.json states per property which clauses are decided and which are not.",
     }
+    import os
     for k in sorted(P):
         v = P[k]
+        if os.path.exists("/verif/replay/%s_test.go" % k) and "TestVerifBounded" + k in open("/verif/replay/%s_test.go" % k).read() and k != "C07":
+            v = dict(v)
+            v["text"] += (" The clauses listed under not_decided_or_bounded_only in scope.json are additionally exercised on every run by a BOUNDED harness "
+                          "against the real code (exhaustive up to stated bounds, seeded sampling beyond; counts in evidence coverage.bounded); that part is "
+                          "bounded and is not counted among the proved obligations.")
         m["checks"].append({
             "property_id": k,
             "quick_cmd": "./check %s --tier quick" % k,
